@@ -222,7 +222,9 @@ def main(c):
     c.trusted("engine S tracer (cxx/sym/sym.hxx: operator overloads, constant folding in Q[sqrt2], printer), the trait glue "
               "cxx/sym/symtfel.hxx and g++'s template instantiation of stensor<N,Sym>",
               "Sym-vs-double agreement of the 90 traced operations on %d seeded inputs (generic, scaled 1e-30..1e30, small "
-              "integers with zeros/repeats, rotations); tolerance 1e-11 relative to the magnitude of the outputs" % nagree)
+              "integers with zeros/repeats, rotations); tolerance 1e-11 relative to the larger of the magnitude of the outputs and, per "
+              "output, the first-order running error bound of the traced expression (sum of |terms| of every sum: cancelling "
+              "sums of products ~1e54 are compared relative to their terms, not to their result)" % nagree)
 
     # ---- theorems, re-checked against the regenerated definitions (three coqc pipelines side by side)
     base = c.coq([gen, "C01Spec.v", "C01Tactics.v", "C01Statements.v"], timeout=600)
